@@ -103,6 +103,9 @@ func init() {
 	}
 	c16 := func(tier string) func(uint64, *prog.Program) *RunResult {
 		return func(seed uint64, p *prog.Program) *RunResult {
+			if p.Tasks > 0 {
+				return concCrashExec(seed, p, c16pol(tier), true, 0.3)
+			}
 			res := crashExec(seed, p, c16pol(tier), judgeMode{Recovery: true, ContinueP: 0.3}, run.Options{Deferred: true})
 			res.Nontrivial = res.Images >= 3
 			return res
@@ -110,10 +113,20 @@ func init() {
 	}
 	Register(&Spec{
 		ID: "C16", Level: "fault_enumeration",
-		Rule: "C15's histories, with crash images and torn-write images taken at the file-mutation points inside Merge (quick: a seeded half of them, thorough: all); every image is mounted, opened and fully observed and must equal the model state before the Merge (Merge is logically a no-op, so there is no in-flight transaction); non-trivial = at least 3 distinct images from inside a Merge",
-		Gen:  func(r *core.Rng, tier string) *prog.Program { return mergeProgram(r, tier, mergeDS, false) },
+		Rule: "C15's histories, with crash images and torn-write images taken at the file-mutation points inside Merge (quick: a seeded half of them, thorough: all); every image is mounted, opened and fully observed and must equal the model state before the Merge (Merge is logically a no-op, so there is no in-flight transaction); one run in five is a scheduled program in which Merge runs beside 2-5 tasks of View/Update transactions: an image taken inside a Merge call at event e must show the state after k write transactions in lock-grant order, k between the number acknowledged and the number granted at e; non-trivial = at least 3 distinct images from inside a Merge",
+		Gen: func(r *core.Rng, tier string) *prog.Program {
+			if r.Bool(0.2) || onlyConc {
+				// Merge running beside writers and readers when the process dies
+				cp := gen.ConcParams{Modes: []int{0, 1}, Segs: []int64{96, 128, 192, 256}, MinTasks: 2, MaxTasks: 5, MaxDBs: 1, MaxSteps: 4, DS: mergeDS, Merge: true, NoZPop: true}
+				return gen.Conc(r, cp)
+			}
+			return mergeProgram(r, tier, mergeDS, false)
+		},
 		Exec: c16("quick"), ExecTier: c16,
 		Deep: func(seed uint64, p *prog.Program) *RunResult {
+			if p.Tasks > 0 {
+				return concCrashExec(seed, p, func(r *core.Rng) *core.SnapPolicy { return deepPolicy(true, true, false)(r) }, true, 0.3)
+			}
 			return crashExec(seed, p, func(r *core.Rng) *core.SnapPolicy {
 				sp := deepPolicy(true, true, false)(r)
 				sp.Phases = map[string]bool{"merge": true}
